@@ -63,6 +63,8 @@ DECIDING = {"server_must_accept_opened": 200, "server_must_reject_refused": 200,
             "timeouts_evaluated": 20, "oversized_dropped_at_timeout": 5, "matrix_pairs_opened": 50, "matrix_pairs_refused": 20,
             "matrix_messages_exchanged": 50, "grey_cases": 50, "segmentations": 15,
             "limit_attempts_judged": 2000, "limit_attempts_at_limit_after_rejection": 300, "limit_admitted_after_earlier_rejection": 100,
+            "origin_hostless_judged": 200, "origin_hostless_judged_null_allowed": 80, "origin_hostless_judged_null_denied": 30,
+            "client_ext_after_approved_judged": 200, "client_ext_approved_only_accepted": 100, "client_ext_after_approved_classes": 5,
             "key_multichar_corruptions_judged": 300, "key_corruption_classes": 60,
             "origin_lookalikes_nonlast_judged": 100, "origin_genuine_accepted": 100, "origin_lookalike_classes": 40, "origin_genuine_positions": 15}
 
@@ -451,6 +453,10 @@ def _bad_keys(rng):
             k.replace("=", "") + "AA", "x" * 24, k[:22] + "=A"]
 
 
+HOSTLESS_ORIGINS = ["evil.example.com", "https://", "https:evil.example.com", "//", "about:blank", "xyz", "http:", "https:", "http:/", "http:///path",
+                    "data:text/html,x", "javascript:alert(1)", "mailto:a@b", ":80", ":443", "80", "localhost", "?", "#", "/", "http://:80", "http://@",
+                    "blob:x", "ws:", "urn:x:y", "chrome-extension:", "https://:443", "http://?x", "http://#", "evil.example.com:443", "a b", "*",
+                    "https:///", "about:srcdoc", "http:/evil.example.com", "nul", "null/", "nullx", "null:80", "x-null"]
 KEY_JUNK = " -_.*~!\t@#$%&()[]{}:;'\"<>?\\^`|,"
 
 
@@ -607,6 +613,25 @@ def server_reject_mutations(cfg):
         sp["h"].append(["Origin" if ver >= 13 else "Sec-WebSocket-Origin", o, " ", ""])
         sp["_sub"] = kind
 
+    def origin_hostless(rng, sp, ver, cfg):
+        # a non-empty Origin value WITHOUT a host, against an allow-list that names hosts; allowNullOrigin both ways
+        cfg.pop("ometa", None)
+        if rng.random() < 0.5:
+            pol = gen_origin_policy(rng)
+            if H.allow_list_is_restricted(pol["allowed"]):
+                cfg["scenario"], cfg["origins"], cfg["policy"] = "generated-%d" % len(pol["allowed"]), list(pol["allowed"]), pol
+        if not H.allow_list_is_restricted(cfg["origins"]):
+            cfg.pop("policy", None)
+            sc = rng.choice([x for x in ORIGIN_SCENARIOS if x["reject"]])
+            cfg["scenario"], cfg["origins"] = sc["name"], list(sc["allowed"])
+        cfg["null"] = rng.random() < 0.7
+        host = re.sub(r"^[^:]*://|[*]\.?|:[^:]*$", "", cfg["origins"][0]) or "good.com"
+        hdel(sp, "Origin")
+        hdel(sp, "Sec-WebSocket-Origin")
+        val = rng.choice(HOSTLESS_ORIGINS + [host, host + ":80", "http:" + host, "https:/" + host, "http//" + host, host + "/", "http:\\\\" + host])
+        sp["h"].append(["Origin" if ver >= 13 else "Sec-WebSocket-Origin", val, " ", ""])
+        sp["_sub"] = "null-allowed" if cfg["null"] else "null-denied"
+
     def origin_null(rng, sp, ver, cfg):
         cfg["null"] = False
         cfg.pop("ometa", None)
@@ -633,7 +658,7 @@ def server_reject_mutations(cfg):
             "key-duplicate": key_duplicate, "key-invalid": key_invalid, "key-multi": key_multi, "version-missing": version_missing,
             "version-unsupported": version_unsupported, "version-other-configured": version_other_configured,
             "version-garbage": version_garbage, "protocol-duplicate": protocol_duplicate, "origin-lookalike": origin_lookalike,
-            "origin-null": origin_null, "max-connections": max_connections, "smuggle-nel": smuggle_nel}
+            "origin-null": origin_null, "origin-hostless": origin_hostless, "max-connections": max_connections, "smuggle-nel": smuggle_nel}
 
 
 # --- grey: leniencies; either outcome is tolerated -------------------------------------------------------------------------
@@ -1077,6 +1102,29 @@ def client_reject_mutations():
         hdel(sp, "Sec-WebSocket-Extensions")
         sp["h"].append(["Sec-WebSocket-Extensions", rng.choice(["permessage-deflate", "permessage-deflate; client_no_context_takeover"]), " ", ""])
 
+    def extension_after_approved(rng, sp, cfg, nonce):
+        # the client OFFERS compression and its accept policy APPROVES the response; the approved extension comes FIRST, followed by
+        # something the client must not accept: unknown extension / a different PMCE / the same PMCE again - in one field or in a second one
+        cfg["offer"], cfg["approve"] = True, True
+        hdel(sp, "Sec-WebSocket-Extensions")
+        first = "permessage-deflate" + rng.choice(["", "", "; server_no_context_takeover", "; client_no_context_takeover", "; server_max_window_bits=12"])
+        kind = rng.choice(["unknown", "unknown", "other-pmce", "same-pmce"])
+        if kind == "unknown":
+            second = rng.choice(["x-webkit-deflate-frame", "mux; max-channels=4", "foo", "deflate-frame", "permessage-foo; x=1", "x-custom"])
+        elif kind == "other-pmce":
+            second = rng.choice(["permessage-bzip2", "permessage-brotli", "permessage-snappy", "permessage-bzip2; client_max_compress_level=9"])
+        else:
+            second = rng.choice(["permessage-deflate", "permessage-deflate; server_no_context_takeover", "Permessage-Deflate"])
+        third = rng.choice(["", "", ", another-ext"])
+        if rng.random() < 0.65:
+            sp["h"].append(["Sec-WebSocket-Extensions", first + rng.choice([", ", ",", " , "]) + second + third, " ", ""])
+            sp["_sub"] = kind + "/one-field"
+        else:
+            i = rng.randrange(len(sp["h"]) + 1)
+            sp["h"].insert(i, ["Sec-WebSocket-Extensions", first, " ", ""])
+            sp["h"].insert(rng.randrange(i + 1, len(sp["h"]) + 1), ["Sec-WebSocket-Extensions", second + third, " ", ""])
+            sp["_sub"] = kind + "/two-fields"
+
     def protocol_not_requested(rng, sp, cfg, nonce):
         hdel(sp, "Sec-WebSocket-Protocol")
         if rng.random() < 0.4:
@@ -1094,7 +1142,7 @@ def client_reject_mutations():
     return {"status-not-101": status, "upgrade-missing": upgrade_missing, "upgrade-wrong": upgrade_wrong, "connection-missing": connection_missing,
             "connection-wrong": connection_wrong, "accept-missing": accept_missing, "accept-duplicate": accept_duplicate,
             "accept-wrong": accept_wrong, "extension-unknown": extension_unknown, "extension-not-offered": extension_not_offered,
-            "extension-declined": extension_declined, "protocol-not-requested": protocol_not_requested, "smuggle-nel": smuggle_nel}
+            "extension-declined": extension_declined, "extension-after-approved": extension_after_approved, "protocol-not-requested": protocol_not_requested, "smuggle-nel": smuggle_nel}
 
 
 def client_grey_mutations():
@@ -1470,6 +1518,9 @@ def run_server_case(case, R, fw):
             return probs
 
         fired = judge("server", case, s, w, R, fw, data, verdict, ocfg, cfg["oht"], w.world.now(), post)
+        if fired and "origin-hostless-not-allowed" in verdict.reasons and verdict.cls == "reject" and not _all_escaped(w):
+            R.count("origin_hostless_judged")
+            R.count("origin_hostless_judged_null_allowed" if cfg["null"] else "origin_hostless_judged_null_denied")
         if fired and case["tag"].startswith("reject/key-multi") and "key-invalid" in verdict.reasons and not _all_escaped(w):
             R.count("key_multichar_corruptions_judged")
             R.seen("key_corruption_classes", case["tag"].split("/", 2)[2])
@@ -1577,6 +1628,14 @@ def run_client_case(case, R, fw):
         if verdict.cls == "reject" and verdict.reasons[0].startswith("accept-"):
             R.count("digests_recomputed")
         fired = judge("client", case, c, w, R, fw, data, verdict, ocfg, cfg["oht"], w.world.now(), post)
+        if fired and cfg["offer"] and cfg["approve"] and not _all_escaped(w):
+            names = verdict.info.get("ext_names") or []
+            if verdict.cls == "accept" and names == ["permessage-deflate"]:
+                R.count("client_ext_approved_only_accepted")
+            elif verdict.cls == "reject" and len(names) > 1 and names[0] == "permessage-deflate" and \
+                    verdict.reasons[0] in ("extension-unknown", "extension-not-offered", "extension-duplicate"):
+                R.count("client_ext_after_approved_judged")
+                R.seen("client_ext_after_approved_classes", "%s/%s" % (verdict.reasons[0], "two-fields" if "two-fields" in case["tag"] else "one-field"))
         if fired:
             R.seen("nontrivial", h([fw, "client", case["tag"], cfg, case["seg"], case.get("data") or case.get("recipe")]))
         R.seen("segmentations", "client/" + case["seg"])
@@ -1835,6 +1894,26 @@ def systematic_cases(rng):
                 sp["h"].append(["Origin" if ver >= 13 else "Sec-WebSocket-Origin", got[0], " ", ""])
                 tag = "accept/origin-policy/genuine" if kind == "genuine" else "reject/origin-lookalike/%s" % kind
                 out.append(finish_case(rng, {"kind": "server", "tag": tag, "cfg": cfg}, build_msg(sp)))
+    # every host-less Origin value x allowNullOrigin both ways, against restricted allow-lists
+    restricted = [x for x in ORIGIN_SCENARIOS if x["reject"]]
+    for i, val in enumerate(HOSTLESS_ORIGINS):
+        for null in (True, False):
+            sc = restricted[(i + int(null)) % len(restricted)]
+            ver = 8 if (i % 5 == 0) else 13
+            cfg = gen_server_cfg(rng)
+            cfg.pop("policy", None)
+            cfg.update(scenario=sc["name"], origins=list(sc["allowed"]), versions=[8, 13], maxc=0, prior=0, closed=0, xport=None, null=null)
+            sp, _ = accept_request_spec(rng, cfg)
+            cfg.pop("ometa", None)
+            hdel(sp, "Origin")
+            hdel(sp, "Sec-WebSocket-Origin")
+            hset(sp, "Sec-WebSocket-Version", str(ver))
+            sp["h"].append(["Origin" if ver >= 13 else "Sec-WebSocket-Origin", val, " ", ""])
+            out.append(finish_case(rng, {"kind": "server", "tag": "reject/origin-hostless/" + ("null-allowed" if null else "null-denied"), "cfg": cfg},
+                                   build_msg(sp)))
+    # an approved extension followed by something else: extra instances (the every-mutation family above has one per segmentation)
+    for _rep in range(24):
+        out.append(gen_client_case(rng, "reject", force="extension-after-approved"))
     # the whole corpus of keys that are not base64(16 octets): multi-character corruptions, interior '=', padding/length variants
     for _rep in range(2):
         for name, val in key_corpus(rng):
@@ -2104,7 +2183,8 @@ def run_shard(params, R):
     tier, part, parts, seed = params["tier"], params["part"], params["parts"], params["seed"]
     for k in DECIDING:
         if k not in ("server_reject_classes", "client_reject_classes", "server_reject_mutations", "client_reject_mutations", "segmentations",
-                     "origin_lookalike_classes", "origin_genuine_positions", "key_corruption_classes"):
+                     "origin_lookalike_classes", "origin_genuine_positions", "key_corruption_classes",
+                     "client_ext_after_approved_classes"):
             R.count(k, 0)
     rng = random.Random((seed * 1000003 + part * 7919 + (17 if fw == "aio" else 0) + (31 if nvx else 0)) & 0xFFFFFFFF)
     # ---- systematic families: generated from the seed alone (same list in every shard), dealt round-robin
